@@ -752,7 +752,9 @@ structure SlotGood (cfg : Cfg) (s : Slot) : Prop where
   resort : incrSort cfg s = some s
   /-- no other index type is served from this pair -/
   exclusive : ∀ s', Hv.Beacon.phys cfg s' = s → s' = s
-  noTypeBranch : cfg.typeChangeDetected = false
+  /-- the type-change branch removes a treasure that became void from every beacon, the key index
+      included: sound only while that cannot happen -/
+  voidSafe : cfg.typeChangeDetected = false ∨ cfg.setVoidClearsTyped = false
   /-- every update either re-files the record in this pair or leaves its sort attribute alone -/
   stable : ∀ (o : Rec) (rq : SetReq),
     refreshes cfg s (mergeRec cfg (some o) rq) = true ∨ attrEq s o (mergeRec cfg (some o) rq)
@@ -760,9 +762,18 @@ structure SlotGood (cfg : Cfg) (s : Slot) : Prop where
 def PairOk (s : Slot) (store : List Rec) (p : Pair) : Prop :=
   p.init = true → ListOk s true store p.asc ∧ ListOk s false store p.desc
 
-theorem Pair.insert_init (cfg : Cfg) (ps : Slot) (r : Rec) (p : Pair) : (p.insert cfg ps r).init = p.init := by
+theorem invalidates_false_of_resort (cfg : Cfg) (ps ss : Slot) (h : incrSort cfg ps = some ss) : invalidates cfg ps = false := by
+  cases ps with
+  | key => simp only [incrSort, invalidates] at h ⊢; cases hr : cfg.resortKey <;> simp_all
+  | created => simp only [incrSort, invalidates] at h ⊢; cases hr : cfg.resortCreated <;> simp_all
+  | updated => simp only [incrSort, invalidates] at h ⊢; cases hr : cfg.resortUpdated <;> simp_all
+  | expire => simp only [incrSort, invalidates] at h ⊢; cases hr : cfg.resortExpire <;> simp_all
+  | value t => simp only [incrSort, invalidates] at h ⊢; cases hr : cfg.resortValue <;> simp_all
+
+theorem Pair.insert_init (cfg : Cfg) (ps ss : Slot) (r : Rec) (p : Pair) (hs : incrSort cfg ps = some ss) :
+    (p.insert cfg ps r).init = p.init := by
   unfold Pair.insert
-  dsimp only
+  simp only [invalidates_false_of_resort cfg ps ss hs, hs, Bool.false_eq_true, if_false]
   repeat' split
   all_goals rfl
 
@@ -771,7 +782,7 @@ theorem Pair.insert_lists (cfg : Cfg) (ps ss : Slot) (r : Rec) (p : Pair)
     (p.insert cfg ps r).asc = sortBy ss true (addTo p.asc r) ∧
     (p.insert cfg ps r).desc = sortBy ss false (addTo p.desc r) := by
   unfold Pair.insert
-  simp only [hi, hg, Bool.not_true, Bool.false_eq_true, if_false, hs]
+  simp only [hi, hg, Bool.not_true, Bool.false_eq_true, if_false, hs, invalidates_false_of_resort cfg ps ss hs]
   repeat' split
   all_goals exact ⟨rfl, rfl⟩
 
@@ -793,7 +804,7 @@ theorem PairOk.insert {cfg : Cfg} {s : Slot} (hg : SlotGood cfg s) {store : List
     (hp : PairOk s store p) (r : Rec) (hfresh : ∀ x ∈ store, x.key ≠ r.key) :
     PairOk s (store ++ [r]) (p.insert cfg s r) := by
   intro hi
-  rw [Pair.insert_init] at hi
+  rw [Pair.insert_init cfg s s r p hg.resort] at hi
   obtain ⟨ha, hd⟩ := hp hi
   cases hc : carries s r
   · rw [Pair.insert_skip cfg s r p (by rw [hg.guard, hc])]
@@ -820,24 +831,46 @@ theorem PairOk.update {cfg : Cfg} {s : Slot} (hg : SlotGood cfg s) {store : List
     intro x hx
     rw [hk]
     exact ((mem_eraseKey _ _ hs x).mp hx).2
+  have hrefile : PairOk s (eraseKey o.key store ++ [mergeRec cfg (some o) rq])
+      ((p.erase o.key).insert cfg s (mergeRec cfg (some o) rq)) :=
+    (hp.erase hs o.key).insert hg (mergeRec cfg (some o) rq) hfresh
   unfold Pair.update
   cases hi : p.init
   · intro h; simp only [Bool.not_false, if_true] at h; rw [hi] at h; cases h
-  · simp only [Bool.not_true, Bool.false_eq_true, if_false, hg.noTypeBranch, Bool.false_and]
-    cases hr : refreshes cfg s (mergeRec cfg (some o) rq)
-    · -- not re-filed: the attribute is unchanged
-      have hattr : attrEq s o (mergeRec cfg (some o) rq) := by
-        rcases hg.stable o rq with h | h
-        · rw [hr] at h; cases h
-        · exact h
-      simp only [Bool.false_eq_true, if_false]
-      intro _
-      obtain ⟨ha, hd⟩ := hp hi
-      exact ⟨ha.alias hs o _ ho hk hattr, hd.alias hs o _ ho hk hattr⟩
-    · simp only [if_true]
+  · simp only [Bool.not_true, Bool.false_eq_true, if_false]
+    by_cases htc : (cfg.typeChangeDetected && o.ct != (mergeRec cfg (some o) rq).ct) = true
+    · -- `IsContentTypeChanged`: removed from every beacon, re-added unless the new type is void — and
+      -- a Set cannot turn typed content into void (`SetContentVoid` leaves it alone)
+      simp only [htc, if_true]
+      have hnv : ((mergeRec cfg (some o) rq).ct != CT.void) = true := by
+        simp only [Bool.and_eq_true, bne_iff_ne, ne_eq] at htc
+        have hcl : cfg.setVoidClearsTyped = false := by
+          rcases hg.voidSafe with h | h
+          · rw [h] at htc; exact absurd htc.1 (by simp)
+          · exact h
+        have hne := htc.2
+        simp only [mergeRec, hcl, Bool.not_false, Bool.and_true] at hne ⊢
+        by_cases hv : (rq.ct == CT.void) = true
+        · simp [hv] at hne
+        · simp only [hv, Bool.false_eq_true, if_false, bne_iff_ne, ne_eq]
+          simpa using hv
+      simp only [hnv, if_true]
       rw [hk]
-      have := (hp.erase hs o.key).insert hg (mergeRec cfg (some o) rq) hfresh
-      exact this
+      exact hrefile
+    · simp only [htc, Bool.false_eq_true, if_false]
+      cases hr : refreshes cfg s (mergeRec cfg (some o) rq)
+      · -- not re-filed: the attribute is unchanged
+        have hattr : attrEq s o (mergeRec cfg (some o) rq) := by
+          rcases hg.stable o rq with h | h
+          · rw [hr] at h; cases h
+          · exact h
+        simp only [Bool.false_eq_true, if_false]
+        intro _
+        obtain ⟨ha, hd⟩ := hp hi
+        exact ⟨ha.alias hs o _ ho hk hattr, hd.alias hs o _ ho hk hattr⟩
+      · simp only [if_true]
+        rw [hk]
+        exact hrefile
 
 theorem Pair.build_init (cfg : Cfg) (s : Slot) (store : List Rec) (p : Pair) : (p.build cfg s store).init = true := by
   unfold Pair.build
@@ -889,42 +922,75 @@ theorem keysNodup_append_fresh {store : List Rec} (hs : KeysNodup store) (r : Re
   obtain ⟨x, hx, rfl⟩ := List.mem_map.mp ha
   rw [hb]; exact hf x hx
 
+theorem slotInv_stepSet {cfg : Cfg} {s : Slot} (hg : SlotGood cfg s) (st : St) (rq : SetReq)
+    (h : SlotInv s st) : SlotInv s (stepSet cfg st rq) := by
+  obtain ⟨hs, hp⟩ := h
+  simp only [stepSet]
+  cases hf : findKey rq.key st.store with
+  | none =>
+    have hfresh : ∀ x ∈ st.store, x.key ≠ (mergeRec cfg none rq).key := findKey_none hf
+    exact ⟨keysNodup_append_fresh hs _ hfresh, hp.insert hg _ hfresh⟩
+  | some o =>
+    have ho := (findKey_some hf).1
+    refine ⟨?_, hp.update hg hs o rq ho⟩
+    apply keysNodup_append_fresh (keysNodup_eraseKey _ _ hs)
+    intro x hx
+    exact ((mem_eraseKey _ _ hs x).mp hx).2
+
+theorem slotInv_stepDel {s : Slot} (st : St) (k : String) (h : SlotInv s st) : SlotInv s (stepDel st k) := by
+  obtain ⟨hs, hp⟩ := h
+  simp only [stepDel]
+  cases hf : findKey k st.store with
+  | none => exact ⟨hs, hp⟩
+  | some o =>
+    simp only []
+    split
+    · exact slotInv_init s
+    · exact ⟨keysNodup_eraseKey _ _ hs, hp.erase hs k⟩
+
+theorem slotInv_stepBuild {cfg : Cfg} {s : Slot} (hg : SlotGood cfg s) (st : St) (q : Query)
+    (h : SlotInv s st) : SlotInv s (stepBuild cfg st q) := by
+  obtain ⟨hs, hp⟩ := h
+  simp only [stepBuild]
+  split
+  · exact ⟨hs, hp⟩
+  · refine ⟨hs, ?_⟩
+    simp only [setPair]
+    by_cases he : s = Hv.Beacon.phys cfg q.slot
+    · have hq : q.slot = s := hg.exclusive q.slot he.symm
+      rw [if_pos he, ← he, hq]
+      exact hp.build hg hs
+    · rw [if_neg he]; exact hp
+
+theorem slotInv_foldDel {s : Slot} (ks : List String) : ∀ (st : St), SlotInv s st → SlotInv s (ks.foldl stepDel st) := by
+  induction ks with
+  | nil => intro st h; exact h
+  | cons k rest ih => intro st h; exact ih _ (slotInv_stepDel st k h)
+
 theorem slotInv_step {cfg : Cfg} {s : Slot} (hg : SlotGood cfg s) (st : St) (op : Op)
     (h : SlotInv s st) : SlotInv s (step cfg st op) := by
-  obtain ⟨hs, hp⟩ := h
   cases op with
-  | set rq =>
-    simp only [step, stepSet]
-    cases hf : findKey rq.key st.store with
-    | none =>
-      have hfresh : ∀ x ∈ st.store, x.key ≠ (mergeRec cfg none rq).key := findKey_none hf
-      exact ⟨keysNodup_append_fresh hs _ hfresh, hp.insert hg _ hfresh⟩
-    | some o =>
-      have ho := (findKey_some hf).1
-      refine ⟨?_, hp.update hg hs o rq ho⟩
-      apply keysNodup_append_fresh (keysNodup_eraseKey _ _ hs)
-      intro x hx
-      exact ((mem_eraseKey _ _ hs x).mp hx).2
-  | del k =>
-    simp only [step, stepDel]
-    cases hf : findKey k st.store with
-    | none => exact ⟨hs, hp⟩
-    | some o =>
-      simp only []
-      split
-      · exact slotInv_init s
-      · exact ⟨keysNodup_eraseKey _ _ hs, hp.erase hs k⟩
-  | read q =>
-    simp only [step, stepBuild]
+  | set rq => exact slotInv_stepSet hg st rq h
+  | inc k d e =>
+    simp only [step, stepInc]
     split
-    · exact ⟨hs, hp⟩
-    · refine ⟨hs, ?_⟩
-      simp only [setPair]
-      by_cases he : s = Hv.Beacon.phys cfg q.slot
-      · have hq : q.slot = s := hg.exclusive q.slot he.symm
-        rw [if_pos he, ← he, hq]
-        exact hp.build hg hs
-      · rw [if_neg he]; exact hp
+    · exact h
+    split
+    · exact slotInv_stepSet hg st _ h
+    · split
+      · exact slotInv_stepSet hg st _ h
+      · split
+        · exact slotInv_stepSet hg st _ h
+        · exact h
+  | reload =>
+    obtain ⟨hs, _⟩ := h
+    refine ⟨?_, ?_⟩
+    · simp only [step, stepReload, KeysNodup, List.map_map]
+      exact hs
+    · intro hi; simp [step, stepReload] at hi
+  | shiftExpired => exact slotInv_foldDel _ _ (slotInv_stepBuild hg st _ h)
+  | del k => exact slotInv_stepDel st k h
+  | read q => exact slotInv_stepBuild hg st q h
 
 theorem slotInv_run {cfg : Cfg} {s : Slot} (hg : SlotGood cfg s) (h : List Op) : SlotInv s (run cfg h) := by
   unfold run
